@@ -28,7 +28,7 @@ func init() {
 	register(&Rule{
 		Prop: "C19",
 		Explanation: "Optionality and file-safety of the embedding feature decided from the SSA form: (O-1) Database.embeddingIndex is stored only with the result of a LoadWordVectors call on the success side of its error test; every use of the field as a receiver is behind a non-nil test of the same (memory-versioned) value; applySemanticBoost is called only under HasEmbeddings(), which is exactly embeddingIndex != nil; nothing else reachable from SearchUniversal touches embedding code; " +
-			"(O-2) the only write to a score in applySemanticBoost is Score = Score * (1 + alpha*sim) under sim >= SemanticMinScore with constants 0 <= alpha < inf and SemanticMinScore >= 0 (so the factor is >= 1 and, given |cos| <= 1, <= 1+alpha), every path that can have written a score passes the Score-descending sort before returning, early exits wrote nothing; (O-3) the division in CosineSimilarity is unreachable unless len(a) == len(b) != 0 and both norms are non-zero, each guard exit returns the constant 0, and b is indexed only under the length equality; " +
+			"(O-2) the only write to a score in applySemanticBoost is Score = Score * (1 + alpha*sim) under sim >= SemanticMinScore with constants 0 <= alpha < inf and SemanticMinScore >= 0 (so the factor is >= 1 and, given |cos| <= 1, <= 1+alpha), every path that can have written a score passes the Score-descending sort before returning, early exits wrote nothing; (O-3) the division in CosineSimilarity is unreachable unless len(a) == len(b) != 0 and both norms are non-zero, each guard exit returns the constant 0, and b is indexed only under the length equality, and every similarity handed back in a list by package embedding is a result of that one function (or 0); " +
 			"(O-4) every integer decoded from a file header by binary.Read that reaches a make size or capacity is bounded first: by its type (<= 16 bits), by an equality test with a trusted value, or by a dominating upper-bound test (inline or in a validator function whose failure is returned) against a quantity not taken from the header; every integer division in the loaders and their helpers has a divisor proven non-zero for every receiver and file (receiver fields are not trusted: Index.Dimension is exported); (O-5) every read/open error in the two loaders is returned; (O-6) every implicit run-time check (index, slice bound, make size, integer division, type assertion) in package embedding and in the database's loader and semantic stage is proven safe for every file content and every index value, half-loaded ones included, by the prover of C10 O-6. Range and symmetry of the cosine as arithmetic, and actual memory use, are NOT decided.",
 		NotDecided:  []string{"|cos| <= 1 and symmetry as floating-point arithmetic", "real memory consumption", "that the semantic stage's factor bound holds for similarities outside [-1,1] (would need the arithmetic fact)"},
 		Assumptions: []string{"encoding/binary.Read fills exactly the fixed-size target or returns an error", "sort.Slice with a Score-descending comparator leaves the slice in non-increasing score order"},
@@ -40,7 +40,7 @@ func runC19(c *Ctx) {
 	r := c.R
 	r.Rule("O-1", "off unless loaded: embeddingIndex is stored only from a successful LoadWordVectors; every receiver use of it is behind a non-nil test of the same value; the semantic stage runs only under HasEmbeddings() == (embeddingIndex != nil); no other embedding call is reachable from SearchUniversal")
 	r.Rule("O-2", "raise only, bounded, ordered: the sole score write is Score *= 1 + alpha*sim under sim >= SemanticMinScore (alpha >= 0 finite, min >= 0); every path after a write passes the Score-descending sort; early returns wrote nothing")
-	r.Rule("O-3", "cosine guards: the division is unreachable unless len(a)==len(b), len(a)!=0 and both norms != 0; guard exits return constant 0; b[i] only under the length equality")
+	r.Rule("O-3", "cosine guards: the division is unreachable unless len(a)==len(b), len(a)!=0 and both norms != 0; guard exits return constant 0; b[i] only under the length equality; every similarity a function of package embedding hands back in a list is a CosineSimilarity result or 0")
 	r.Rule("O-4", "header-driven allocation: a binary.Read-decoded integer reaching a make size/capacity is bounded by its type (<=16 bits), an equality with a trusted value, or a dominating upper-bound test against a non-header quantity (inline or via a validator whose failure is returned)")
 	r.Rule("O-5", "errors, not panics: every open/read error in LoadWordVectors and LoadCommandEmbeddings is tested and returned")
 
@@ -50,6 +50,94 @@ func runC19(c *Ctx) {
 	c19Cosine(c, sx)
 	c19Alloc(c, sx)
 	c19Implicit(c)
+	c19OneCosine(c)
+}
+
+// c19OneCosine: O-3, who computes a similarity. "Raise by a bounded factor"
+// needs every similarity the semantic stage sees to be a cosine (at most 1 in
+// magnitude, 0 for mismatched vectors): O-3 establishes the guards and the
+// normalising denominator for CosineSimilarity only. Hence every value stored
+// into a []float64 that a function of package embedding hands back is a
+// result of CosineSimilarity (directly or through a helper that returns
+// nothing else) or the constant 0 — a second, hand-rolled formula (a dot
+// product over the query norm "because the vectors are unit length") escapes
+// the guards and the bound.
+func c19OneCosine(c *Ctx) {
+	r := c.R
+	cos := c.P.Func("internal/embedding", "", "CosineSimilarity")
+	if cos == nil {
+		return
+	}
+	var isCos func(v ssa.Value, d int) bool
+	isCos = func(v ssa.Value, d int) bool {
+		if k, ok := ssau.ConstFloat(v); ok {
+			return k == 0
+		}
+		call, ok := v.(*ssa.Call)
+		if !ok || d > 2 {
+			return false
+		}
+		g := call.Common().StaticCallee()
+		if g == cos {
+			return true
+		}
+		if g == nil || g.Blocks == nil || !c.P.IsRepoFunc(g) || g.Signature.Results().Len() != 1 {
+			return false
+		}
+		rets := ssau.ReturnsOf(g)
+		for _, ret := range rets {
+			if !isCos(ssau.ResultValue(ret, 0), d+1) {
+				return false
+			}
+		}
+		return len(rets) > 0
+	}
+	n := 0
+	for _, fn := range shippedFuncs(c) {
+		pk := c.P.PkgOfFunc(fn)
+		if pk == nil || !strings.HasSuffix(pk.PkgPath, "internal/embedding") || fn.Signature.Results().Len() != 1 {
+			continue
+		}
+		sl, ok := fn.Signature.Results().At(0).Type().Underlying().(*types.Slice)
+		if !ok {
+			continue
+		}
+		if b, ok := sl.Elem().Underlying().(*types.Basic); !ok || b.Kind() != types.Float64 {
+			continue
+		}
+		fk := load.FuncKey(fn)
+		ord := newOrdinal()
+		ssau.ForEachInstr(fn, false, func(in ssa.Instruction) {
+			// scores = append(scores, x)
+			if ac, isCall := in.(*ssa.Call); isCall && ssau.CallName(ac) == "builtin.append" {
+				if es, ok := ac.Type().Underlying().(*types.Slice); ok && types.Identical(es.Elem(), sl.Elem()) {
+					if v := appendedSingle(ac); v != nil {
+						n++
+						r.Check(isCos(v, 0), "O-3", ord.next(fk+"#similarity-is-the-cosine"), c.P.Pos(ac.Pos()), "the similarity appended is CosineSimilarity(query, command) or 0", "a similarity handed to the semantic stage is computed by something other than CosineSimilarity: it escapes the length and zero-norm guards and need not lie between -1 and 1, so the boost factor is not bounded")
+					}
+				}
+				return
+			}
+			st, ok := in.(*ssa.Store)
+			if !ok {
+				return
+			}
+			ia, ok := st.Addr.(*ssa.IndexAddr)
+			if !ok {
+				return
+			}
+			if es, ok := ia.X.Type().Underlying().(*types.Slice); !ok || !types.Identical(es.Elem(), sl.Elem()) {
+				return
+			}
+			// the one-element array behind append(scores, x) is not the list itself
+			if al, isAl := ia.X.(*ssa.Alloc); isAl && strings.Contains(al.Comment, "varargs") {
+				return
+			}
+			n++
+			r.Check(isCos(st.Val, 0), "O-3", ord.next(fk+"#similarity-is-the-cosine"), c.P.Pos(st.Pos()), "the similarity stored is CosineSimilarity(query, command) or 0", "a similarity handed to the semantic stage is computed by something other than CosineSimilarity: it escapes the length and zero-norm guards and need not lie between -1 and 1, so the boost factor is not bounded")
+		})
+	}
+	r.Floor("O-3", "similarities stored", n, 1)
 }
 
 // c19Implicit: O-6. "never crashes": every implicit run-time check (index,
